@@ -11,6 +11,7 @@ bootstrap.ensure()
 
 ID = "C17"
 LEVEL = "exploration"
+TECHNIQUE = "runtime monitoring: Select-marker coherence walker; raw-tree conform differential (interpreter + SQLite)"
 RULE = (
     "seeded random SQL programs (as in C02) are built two ways: (1) through the factories - every intermediate "
     "relation r must satisfy engine.conform(r) is r, and every Select marker in every returned tree is walked: the "
